@@ -65,6 +65,13 @@ pub enum Case {
         /// position in the last pass) and fire that timer once - the token the timer wheel holds is a poller key too
         #[serde(default)]
         timers: u8,
+        /// which Generic children the composite PAUSES in which pass after the first (bit (pass * 5 + i) % 32): a paused
+        /// child is unregistered on its own (`child.unregister(poll)`) and takes no sub-token while its siblings are
+        /// re-registered - flow control. It must not be in the kernel table, everything after it moves up, and when
+        /// the siblings become ready (every event is offered to every child, each filters by its own token) the paused
+        /// child must not take a sibling's event for its own
+        #[serde(default)]
+        paused: u32,
     },
 }
 
@@ -125,7 +132,7 @@ fn loop_case() -> impl Strategy<Value = Case> {
 }
 
 fn mixed_case() -> impl Strategy<Value = Case> {
-    (proptest::collection::vec(any::<bool>(), 1..=6), 0u8..4, prop_oneof![1 => Just(0u32), 2 => any::<u32>()], prop_oneof![2 => Just(0u8), 1 => any::<u8>()]).prop_map(|(layout, updates, shape, timers)| Case::Mixed { layout, updates, shape, timers })
+    (proptest::collection::vec(any::<bool>(), 1..=6), 0u8..4, prop_oneof![1 => Just(0u32), 2 => any::<u32>()], prop_oneof![2 => Just(0u8), 1 => any::<u8>()], prop_oneof![2 => Just(0u32), 1 => any::<u32>()]).prop_map(|(layout, updates, shape, timers, paused)| Case::Mixed { layout, updates, shape, timers, paused })
 }
 
 fn v(rule: &str, detail: String) -> Option<Violation> {
@@ -326,6 +333,12 @@ struct MixedProbe {
     events: Rc<RefCell<Vec<usize>>>,
     /// per child: how often its Timer fired
     fired: Rc<RefCell<Vec<u32>>>,
+    /// bit i: Generic child i is paused in the current pass
+    pause: Rc<std::cell::Cell<u32>>,
+    /// per child: currently unregistered by the composite itself
+    is_paused: Vec<bool>,
+    /// per child: how often its Generic callback ran
+    hits: Rc<RefCell<Vec<u32>>>,
 }
 
 impl EventSource for MixedProbe {
@@ -345,6 +358,17 @@ impl EventSource for MixedProbe {
                 let _ = t.process_events(readiness, token, |_, _| {
                     fired.borrow_mut()[i] += 1;
                     calloop::timer::TimeoutAction::Drop
+                });
+            }
+        }
+        // ... and to every Generic child, paused or not
+        for (i, g) in self.gens.iter_mut().enumerate() {
+            if let Some(g) = g {
+                let hits = self.hits.clone();
+                let _ = g.process_events(readiness, token, |_, fd| {
+                    hits.borrow_mut()[i] += 1;
+                    let _ = kernel::eventfd_read(fd.0);
+                    Ok(PostAction::Continue)
                 });
             }
         }
@@ -370,15 +394,26 @@ impl EventSource for MixedProbe {
                 continue;
             }
             match g {
-                Some(g) => g.reregister(poll, tf)?,
+                Some(g) => {
+                    let pause_now = self.pause.get() >> i & 1 == 1;
+                    match (self.is_paused[i], pause_now) {
+                        (false, false) => g.reregister(poll, tf)?,
+                        (false, true) => g.unregister(poll)?,
+                        (true, false) => g.register(poll, tf)?,
+                        (true, true) => {}
+                    }
+                    self.is_paused[i] = pause_now;
+                }
                 None => self.drawn.borrow_mut()[i] = if self.draws.get() >> i & 1 == 1 { Some(tf.token().verif_key()) } else { None },
             }
         }
         Ok(())
     }
     fn unregister(&mut self, poll: &mut Poll) -> calloop::Result<()> {
-        for g in self.gens.iter_mut().flatten() {
-            g.unregister(poll)?;
+        for (i, g) in self.gens.iter_mut().enumerate() {
+            if let (Some(g), false) = (g, self.is_paused[i]) {
+                g.unregister(poll)?;
+            }
         }
         for t in self.timers.iter_mut().flatten() {
             t.unregister(poll)?;
@@ -387,7 +422,7 @@ impl EventSource for MixedProbe {
     }
 }
 
-fn run_mixed(layout: &[bool], updates: u8, shape: u32, timers: u8) -> Option<Violation> {
+fn run_mixed(layout: &[bool], updates: u8, shape: u32, timers: u8, paused: u32) -> Option<Violation> {
     let layout: Vec<bool> = layout.iter().copied().take(8).collect();
     if layout.is_empty() {
         return None;
@@ -425,8 +460,18 @@ fn run_mixed(layout: &[bool], updates: u8, shape: u32, timers: u8) -> Option<Vio
             }
     };
     let draws = Rc::new(std::cell::Cell::new(draws_of(0)));
+    // nobody is paused in the first pass
+    let pause_of = |pass: u32| -> u32 {
+        if pass == 0 || paused == 0 {
+            0
+        } else {
+            (0..layout.len() as u32).fold(0, |m, i| m | ((layout[i as usize] as u32 & (paused >> ((pass * 5 + i) % 32) & 1)) << i))
+        }
+    };
+    let pause = Rc::new(std::cell::Cell::new(0u32));
+    let hits = Rc::new(RefCell::new(vec![0u32; layout.len()]));
     let probe = calloop::Dispatcher::new(
-        MixedProbe { gens, drawn: drawn.clone(), draws: draws.clone(), timers: timer_children, events: events.clone(), fired: fired.clone() },
+        MixedProbe { gens, drawn: drawn.clone(), draws: draws.clone(), timers: timer_children, events: events.clone(), fired: fired.clone(), pause: pause.clone(), is_paused: vec![false; layout.len()], hits: hits.clone() },
         |_: (), _: &mut (), _: &mut ()| {},
     );
     let tok = h.register_dispatcher(probe.clone()).expect("insert MixedProbe");
@@ -449,6 +494,7 @@ fn run_mixed(layout: &[bool], updates: u8, shape: u32, timers: u8) -> Option<Vio
         }
         if round > 0 {
             draws.set(draws_of(round as u32));
+            pause.set(pause_of(round as u32));
             if let Err(e) = h.update(&tok) {
                 return v("C20.kernel", format!("update() of the composite failed: {e}"));
             }
@@ -459,6 +505,12 @@ fn run_mixed(layout: &[bool], updates: u8, shape: u32, timers: u8) -> Option<Vio
         let mut next_sub = 0u16;
         for (i, fd) in raw.iter().enumerate() {
             if fd.is_none() && draws.get() >> i & 1 == 0 {
+                continue;
+            }
+            if let (Some(fd), true) = (fd, pause.get() >> i & 1 == 1) {
+                if table.iter().any(|e| e.tfd == *fd) {
+                    return v("C20.kernel", format!("generic child {i} (fd {fd}) was unregistered by its composite in round {round} and is still in the kernel table"));
+                }
                 continue;
             }
             let want_sub = next_sub;
@@ -512,6 +564,39 @@ fn run_mixed(layout: &[bool], updates: u8, shape: u32, timers: u8) -> Option<Vio
             );
         }
     }
+    // the registered Generic children become ready (the paused ones too, which nobody watches): each registered one runs
+    // its callback once, a paused one never - it holds no key, so no event of the batch can be its own
+    let gen_keys: Vec<usize> = kernel::epoll_table(epfd).iter().filter(|e| raw.iter().flatten().any(|fd| *fd == e.tfd)).map(|e| e.data as usize).collect();
+    if raw.iter().any(|fd| fd.is_some()) {
+        for fd in raw.iter().flatten() {
+            kernel::eventfd_write(*fd, 1);
+        }
+        for _ in 0..2 {
+            if let Err(e) = el.dispatch(Some(Duration::ZERO), &mut ()) {
+                return v("C20.kernel", format!("dispatch failed: {e}"));
+            }
+        }
+        for (i, fd) in raw.iter().enumerate() {
+            if fd.is_none() {
+                continue;
+            }
+            let is_paused = pause.get() >> i & 1 == 1;
+            let n = hits.borrow()[i];
+            if is_paused && n != 0 {
+                return v(
+                    "C20.inject",
+                    format!(
+                        "generic child {i} is paused (unregistered by its composite, it took no sub-token in the last pass) and its callback ran {n} time(s) when its siblings became ready: it still answers to a key that now is a sibling's (layout {layout:?}, paused mask {:#b}, events {:?})",
+                        pause.get(),
+                        events.borrow().iter().map(|k| cv::unpack(*k)).collect::<Vec<_>>()
+                    ),
+                );
+            }
+            if !is_paused && n != 1 {
+                return v("C20.kernel", format!("generic child {i} is registered and became ready once, its callback ran {n} time(s) (layout {layout:?}, paused mask {:#b})", pause.get()));
+            }
+        }
+    }
     if any_timer {
         // nothing but the timers can be ready (the eventfds were never written): every event of the next dispatches
         // must carry the key one of the Timer children holds now, and each of them fires exactly once
@@ -523,7 +608,7 @@ fn run_mixed(layout: &[bool], updates: u8, shape: u32, timers: u8) -> Option<Vio
         }
         let want: Vec<usize> = timer_keys.iter().map(|(_, k)| *k).collect();
         for k in events.borrow().iter() {
-            if !want.contains(k) {
+            if !want.contains(k) && !gen_keys.contains(k) {
                 return v(
                     "C20.kernel",
                     format!(
@@ -660,8 +745,11 @@ pub fn run_case(case: &Case) -> CaseOutcome {
             info.nontrivial = *reuses >= 2 || *subs >= 2;
             run_loop(*pre_slots, *reuses, *subs)
         }
-        Case::Mixed { layout, updates, shape, timers } => {
+        Case::Mixed { layout, updates, shape, timers, paused } => {
             info.classes.push("mixed_composite");
+            if *paused != 0 && *updates > 0 {
+                info.classes.push("mixed_composite_pausing_children");
+            }
             if layout.iter().enumerate().any(|(i, g)| !*g && *timers >> i & 1 == 1) {
                 info.classes.push("mixed_composite_with_timer_children");
             }
@@ -669,7 +757,7 @@ pub fn run_case(case: &Case) -> CaseOutcome {
                 info.classes.push("mixed_composite_with_shifting_sub_ids");
             }
             info.nontrivial = layout.len() >= 2 && *updates >= 1 && layout.iter().any(|g| *g) && layout.iter().any(|g| !*g);
-            run_mixed(layout, *updates, *shape, *timers)
+            run_mixed(layout, *updates, *shape, *timers, *paused)
         }
     };
     (info, viol)
@@ -867,7 +955,8 @@ fn mixed_from_bytes(data: &[u8]) -> Case {
     let updates = d.u8r(0, 3);
     let shape = if d.pct(33) { 0 } else { d.u32r(0, u32::MAX) };
     let timers = if d.pct(60) { 0 } else { d.u8r(0, 255) };
-    Case::Mixed { layout, updates, shape, timers }
+    let paused = if d.pct(60) { 0 } else { d.u32r(0, u32::MAX) };
+    Case::Mixed { layout, updates, shape, timers, paused }
 }
 
 pub fn fuzz_subs(_ctx: &CheckCtx) -> Vec<crate::fuzz::FuzzSub> {
